@@ -36,7 +36,7 @@ def bounds(tier):
 def required_cells(tier):
     return ["alias:compiled-through-file-link", "alias:-I-through-dir-link", "alias:dot-segments-file", "alias:dot-segments-I",
             "alias:include-through-file-link", "alias:once-header-under-two-names", "alias:forced-include",
-            "link:unused-to-member", "link:to-outside", "link:to-excluded-member", "names-differing-in-case", "link:extension-of-another-language", "link:to-sibling-with-root-prefix", "same-file-from-2-commands", "one-tree-per-inode", "cli:tree-links"]
+            "link:unused-to-member", "link:to-outside", "link:to-excluded-member", "names-differing-in-case", "link:extension-of-another-language", "link:to-sibling-with-root-prefix", "alias:root-directory-through-link", "same-file-from-2-commands", "one-tree-per-inode", "cli:tree-links"]
 
 
 def dots(rng, rel):
@@ -221,7 +221,14 @@ def check_case(ctx, case, base, cls, do_cli=False):
     try:
         excl = ac.get("exclude") or []
         st_t, cb_t = cbi.run_find(troot, forest.cbi_configuration(case, tb), exclude_patterns=excl)
-        st_a, cb_a = cbi.run_find(aroot, forest.cbi_configuration(ac, ab), exclude_patterns=excl)
+        # every other case names the analysis root itself through a symbolic link to the directory
+        aroot_given = aroot
+        if len(ac["files"]) % 2 == 0:
+            aroot_given = os.path.join(ab, "root-by-link")
+            if not os.path.lexists(aroot_given):
+                os.symlink(os.path.realpath(aroot), aroot_given)
+            cells.add("alias:root-directory-through-link")
+        st_a, cb_a = cbi.run_find(aroot_given, forest.cbi_configuration(ac, ab), exclude_patterns=excl)
         acc.hook("find", 2)
         at, dup_t = by_inode(st_t, os.path.realpath(troot))
         aa, dup_a = by_inode(st_a, os.path.realpath(aroot))
